@@ -96,7 +96,7 @@ impl<A: Ord + Clone + Debug> CmRDT for VClock<A> {
     type Validation = DotRange<A>;
 
     fn validate_op(&self, dot: &Self::Op) -> Result<(), Self::Validation> {
-        let next_counter = self.get(&dot.actor) + 1;
+        let next_counter = self.get(&dot.actor).saturating_add(1);
         if dot.counter > next_counter {
             Err(DotRange {
                 actor: dot.actor.clone(),
